@@ -4,12 +4,14 @@ import json, os, glob, subprocess
 V = os.path.dirname(os.path.dirname(os.path.abspath(__file__)))
 props = [json.loads(l) for l in open(os.path.join(V, "properties.jsonl")) if l.strip()]
 checks, na = [], []
+# only properties the coordinator has verified to run clean on the unchanged tree are claimed
+claimed_ids = set(l.split()[0] for l in open(os.path.join(V, "CLAIMED.txt")) if l.strip() and not l.startswith("#"))
 for p in props:
     pid = p["id"]
     cj = os.path.join(V, "harness", "props", pid.lower(), "check.json")
     conf = json.load(open(cj)) if os.path.exists(cj) else {}
     m = conf.get("manifest")
-    if not m or not conf.get("claimed"):
+    if not m or not conf.get("claimed") or pid not in claimed_ids:
         na.append({"property_id": pid, "reason": conf.get("not_claimed_reason", "check under construction in this framework; not claimed until it runs clean on the unchanged tree")})
         continue
     checks.append({
